@@ -41,6 +41,9 @@ def moduli(n):
         if v < top - 1:
             out.append(("even_v%d" % v, (((dense(n, v) | 1) << v) & al.ones(n)) | (1 << (top - 1))))
     out.append(("3*2^k", 3 << (top - 2)))
+    if n >= 3:
+        B_ = 1 << 64
+        out += [("B^n-B-1", (1 << top) - B_ - 1), ("B^n-B+1", (1 << top) - B_ + 1), ("B^n-B^2+1", (1 << top) - B_ * B_ + 1), ("B^(n-1)+B+1", (1 << (top - 64)) + B_ + 1)]
     return out
 
 
@@ -173,6 +176,34 @@ def spaces(tier, variant, seed):
                 t = v["redc_1_to_redc_n_threshold"]
                 blocks += [(cfg, n) for n in (t - 1, t, t + 1) if n < 140]
         sp.append(Space("rt_powm_sizes", blocks, sz_cases, sz_one, "same under the floor vector (REDC_1_TO_REDC_N 16, KARATSUBA 4 ...) n=1..%d and shipped extremes" % N1))
+
+    # larger odd parts: the wrap-around product size chosen for REDC-n (mpn_mulmod_bnm1_next_size) steps at multiples of 64 limbs above
+    # 256, and the structured moduli B^n - B +- 1 make single limbs of the reduction zero / all ones
+    def lg_cases(blk):
+        cfg, n = blk
+        for mi in range(len(moduli(n))):
+            for ei in range(6):
+                for bi in range(8):
+                    yield (cfg, n, mi, ei, bi)
+
+    def lg_one(case, R):
+        cfg, n, mi, ei, bi = case
+        set_cfg(cfg)
+        ml, m = moduli(n)[mi]
+        a = abs(m)
+        e = [2, 3, 17, 65537, (1 << 200) - 1, (1 << 127) + 1][ei]
+        b = [2, 1 << 32, 1 << 64, 3, a - 1, dense(n, 9) % a, -dense(n, 7), (1 << (64 * n - 1)) % a][bi]
+        r = ot.run(powm, (b, e, m), R=R, tag="mpz_powm[%s,n=%d,e%d,b%d]" % (ml, n, ei, bi))
+        if r is None:
+            return None
+        if e <= M:
+            ot.run(powm_ui, (b, e, m), R=R, tag="mpz_powm_ui[%s,n=%d,e%d,b%d]" % (ml, n, ei, bi))
+        return (cfg, n, ml, ei, bi)
+
+    if variant != "asan":
+        LN = (99, 100, 101, 128, 129, 255, 256, 257, 258, 320, 321, 385) if quick else (99, 100, 101, 127, 128, 129, 191, 192, 193, 255, 256, 257, 258, 319, 320, 321, 322, 385, 449, 513, 545, 577, 641, 1025)
+        sp.append(Space("powm_large_structured", [(BASECFG, n) for n in LN], lg_cases, lg_one,
+                        "mpz_powm/powm_ui with moduli of %s limbs (both sides of 64k+1 above 256, REDC-n regime) x 15 modulus families incl. B^n-B+-1, B^n-B^2+1 x 6 exponents x 8 bases (powers of two, m-1, dense, negative)" % (list(LN),)))
 
     pow_ui = ot.OPS["mpz_pow_ui"]
     ui_pow_ui = ot.OPS["mpz_ui_pow_ui"]
